@@ -18,7 +18,7 @@ RULE = ('(a) valid files of each supported format from the independent generator
 ASSUMPTIONS = [
     'expected codes: RP66V1 -> RP66V1; LIS -> LIS / LISt (TIF) / LIStr (byte-reversed TIF markers); LAS -> LAS1.2 / LAS2.0 by VERS; BIT -> BIT; DAT -> DAT',
     'TIF-marked LIS files whose first record is exactly 276 bytes share the BIT signature and are excluded, as the property says',
-    '"terminates promptly" is decided on a logical clock: LINE events <= A*len + B with A, B set ~20x above the maximum observed on valid inputs; wall clock is only a watchdog',
+    '"terminates promptly" is decided on a logical clock: LINE events <= A*len + B with A, B set ~20x above the maximum observed on valid inputs; a second clock, the process\'s own CPU time (ITIMER_VIRTUAL, 20 s + 60 s per MB, three to four orders of magnitude above the need), covers loops inside C extensions that emit no LINE events (regular expressions); wall clock is only a watchdog',
     'LAS files in byte-reversed TIF or RP66V1 with TIF markers are not generated (not in the property)',
 ]
 MECHANISMS = [
@@ -47,6 +47,32 @@ def plan(tier, seed):
     return [{'valid': nv, 'hostile': nh} for _ in range(NSHARDS)] + [{'leg': 'atheris', 'runs': FUZZ_RUNS[tier]}]
 
 
+class CpuBudgetExceeded(BaseException):
+    """BaseException so that `except Exception` in the code under test cannot swallow it."""
+
+
+CPU = {'budget_s': 20.0, 'overruns': 0}
+
+
+def _on_vtalrm(signum, frame):
+    raise CpuBudgetExceeded()
+
+
+def cpu_limited(fn, nbytes):
+    """Run fn() under a budget of the process's own CPU time (ITIMER_VIRTUAL: it does not run while the process waits for
+    a loaded machine).  The LINE counter cannot see a loop inside a C extension - a regular expression that backtracks for
+    ever - so this second clock covers it.  20 s (+ 60 s per MB) is 3-4 orders of magnitude above what an input needs."""
+    import signal
+    budget = CPU['budget_s'] + 60.0 * nbytes / 1e6 if CPU['overruns'] < 2 else 2.0
+    old = signal.signal(signal.SIGVTALRM, _on_vtalrm)
+    signal.setitimer(signal.ITIMER_VIRTUAL, budget)
+    try:
+        return fn()
+    finally:
+        signal.setitimer(signal.ITIMER_VIRTUAL, 0)
+        signal.signal(signal.SIGVTALRM, old)
+
+
 def identify(rec, bft, steps, data, label, expect=None, witness=None):
     """Run the real identification on a tapped in-memory file under the step counter and apply every oracle.
     Returns the code (or None when it raised)."""
@@ -58,10 +84,19 @@ def identify(rec, bft, steps, data, label, expect=None, witness=None):
     w.update({'input': data, 'len': len(data), 'class': label})
     code = None
     try:
-        code, n = steps.run(lambda: bft.binary_file_type(f), budget)
+        code, n = cpu_limited(lambda: steps.run(lambda: bft.binary_file_type(f), budget), len(data))
     except StepBudgetExceeded as e:
         rec.mon('step_budget')
         rec.violation('step_budget', 'overrun', 'identification of a %d-byte %s input exceeded %d line events' % (len(data), label, budget), w)
+        return None
+    except CpuBudgetExceeded:
+        rec.mon('step_budget')
+        CPU['overruns'] += 1
+        if CPU['overruns'] <= 3:
+            rec.violation('step_budget', 'cpu-time', 'identification of a %d-byte %s input was still running after %.0f s of the process\'s own CPU time (a loop the line counter cannot see)' % (
+                len(data), label, CPU['budget_s'] + 60.0 * len(data) / 1e6), w)
+        else:
+            rec.add('cpu_time_overruns_not_listed')
         return None
     except Exception as e:  # noqa - any exception is a refutation
         rec.mon('no_raise')
@@ -166,7 +201,13 @@ def gates(rec, data, label, expect, code, w):
     except UnicodeDecodeError:
         return
     try:
-        ok = DAT_parser.can_parse_file(io.StringIO(text))
+        ok = cpu_limited(lambda: DAT_parser.can_parse_file(io.StringIO(text)), len(data))
+    except CpuBudgetExceeded:
+        CPU['overruns'] += 1
+        if CPU['overruns'] <= 3:
+            rec.violation('step_budget', 'cpu-time', 'DAT_parser.can_parse_file on a %d-byte %s input was still running after %.0f s of the process\'s own CPU time' % (
+                len(data), label, CPU['budget_s'] + 60.0 * len(data) / 1e6), w)
+        return
     except Exception as e:  # noqa
         rec.violation('format_gates_no_raise', 'can_parse_file:' + type(e).__name__, 'DAT_parser.can_parse_file raised %s on a %d-byte %s input: %s' % (type(e).__name__, len(data), label, str(e)[:150]), w, exc=e)
         return
